@@ -1,5 +1,7 @@
 import XalanModel.C16.CacheProofs
 import XalanModel.C16.DecodeProofs
+import XalanModel.C16.CollatorProofs
+import XalanModel.C16.LibSortProofs
 /-!
 # C16 — xsl:sort yields a stable permutation ordered by its keys
 
@@ -163,6 +165,25 @@ theorem sortNodesM_eq_sortNodes (env : Env α) (hc : CollationOK env) (keys : Li
 
 /-! ## the sort -/
 
+/-- **libStableSort_contract.**  The libstdc++-shaped algorithm (insertion-sorted runs of 7, then pairwise
+merges of adjacent runs with the left run first on ties, doubling) driven by `NodeSortKeyCompare` returns
+exactly the list of the contract model `sortNodes` (`List.mergeSort`): the `std::stable_sort` parameter of the
+trusted base is discharged for this algorithm shape, for every list and every key list. -/
+theorem libStableSort_contract (env : Env α) (hc : CollationOK env) (keys : List Key) (nodes : List α) :
+    sortNodesLib env keys nodes = sortNodes env keys nodes := by
+  unfold sortNodesLib sortNodes stableSort
+  have tw : ThreeWay (fun a b : Entry α => compare env keys a.1 b.1) :=
+    (compare_threeWay env hc keys).comap (fun e : Entry α => e.1)
+  rw [libStableSort_eq_mergeSort (fun a b : Entry α => less env keys a.1 b.1)
+    (fun a b d => le_of_threeWay_trans tw a b d) (fun a b => le_of_threeWay_total tw a b)]
+
+example : sortNodesLib (⟨fun _ => strCompare, fun _ (n : Nat) => Dbl.ofBits (n % 3), fun _ n => [n % 2]⟩ : Env Nat)
+    [⟨true, true⟩, ⟨false, false⟩] (List.range 20)
+    = [2, 8, 14, 5, 11, 17, 4, 10, 16, 1, 7, 13, 19, 0, 6, 12, 18, 3, 9, 15] := by
+  rw [libStableSort_contract _ (fun _ => strCompare_threeWay), ← sortNodesM_eq_sortNodes _ (fun _ => strCompare_threeWay)]
+  decide
+
+
 /-- **sort_spec.**  For every node list and every key list the output of `NodeSorter::sort` is
 (1) a permutation of the input, (2) sorted: no later element strictly precedes an earlier one in the
 lexicographic key order, (3) stable: every sub-sequence of the input that is already in order (in
@@ -254,6 +275,51 @@ theorem isStableSortedPerm_complete (env : Env Nat) (hc : CollationOK env) (keys
 example : isStableSortedPerm
     (specCompare (⟨fun _ => strCompare, fun _ (n : Nat) => if n = 2 then Dbl.nan else Dbl.posZero, fun _ n => [5 - n]⟩ : Env Nat)
       [⟨true, true⟩, ⟨false, false⟩] 0) 3 [1, 0, 2] = true := by decide
+
+/-! ## per-key language and case-order: the collator cache -/
+
+/-- **keyLangs_own.**  (After the proposed fix.)  Key `k` is collated with the language its own xsl:sort
+evaluated, or with none if that xsl:sort has no `lang`. -/
+theorem keyLangs_own (langs : List (Option String)) (k : Nat) (hk : k < langs.length) :
+    (keyLangs langs)[k]? = some ((langs[k]'hk).getD "") := by
+  simp [keyLangs, hk]
+
+/-- **sharedLang_counterexample.**  The code as it was (every NodeSortKey pointing at sortChildren's one scratch
+string): the first key's `lang="sv"` is replaced by the second key's `lang="en"`, and a key without `lang`
+inherits an earlier key's.  Replayed on the real library by corpus cases 09/10 (`z`, `ö`). -/
+theorem sharedLang_counterexample :
+    keyLangsShared [some "sv", some "en"] ≠ keyLangs [some "sv", some "en"] ∧
+    keyLangsShared [some "sv", none] ≠ keyLangs [some "sv", none] := by decide
+
+/-- **collator_sees_own_key.**  Whatever the state of the functor's collator cache (which collators were
+created, and with which UCOL_CASE_FIRST earlier comparisons left them), a comparison made for a key with
+`lang` / `case-order` is made with exactly that key's settings: locale = its language (the default locale
+when it has none) and UCOL_CASE_FIRST = its case-order (default when it has none); the default collator
+stays untouched. -/
+theorem collator_sees_own_key (f : CollFunctor) (h : FunctorOK f) (lang : String) (co : CaseOrder) :
+    (collate f lang co).2 = ownSettings f lang co ∧ FunctorOK (collate f lang co).1 ∧
+    (collate f lang co).1.defaultLocaleName = f.defaultLocaleName :=
+  collate_own f h lang co
+
+/-- **collator_history_sees_own_keys.**  … for every sequence of comparisons — interleaved keys of one sort
+(same language, different case-order), successive sorts of one transformation, successive transformations of
+one transformer: collation is a function of the key's own (lang, case-order) only, which is what `Env.scmp k`
+assumes. -/
+theorem collator_history_sees_own_keys (f : CollFunctor) (h : FunctorOK f) (reqs : List (String × CaseOrder)) :
+    collateAll f reqs = reqs.map (fun r => ownSettings f r.1 r.2) :=
+  collateAll_own reqs f h
+
+/-- the cache holds at most `eCacheMax` collators -/
+theorem collator_cache_bounded (f : CollFunctor) (h : f.cache.length ≤ eCacheMax) (lang : String) (co : CaseOrder) :
+    (collate f lang co).1.cache.length ≤ eCacheMax :=
+  collate_cache_bound f h lang co
+
+/-- non-vacuity: upper-first then default on the same cached Swedish collator, default locale in between -/
+example :
+    collateAll ⟨"en-US", ⟨"en-US", .default_⟩, true, []⟩
+      [("sv", .upperFirst), ("sv", .dflt), ("", .dflt), ("", .lowerFirst), ("en-US", .dflt), ("sv", .lowerFirst), ("sv", .dflt)]
+    = [⟨"sv", .upperFirst⟩, ⟨"sv", .default_⟩, ⟨"en-US", .default_⟩, ⟨"en-US", .lowerFirst⟩, ⟨"en-US", .default_⟩,
+       ⟨"sv", .lowerFirst⟩, ⟨"sv", .default_⟩] := by decide
 
 /-! ## decoding of the xsl:sort attributes -/
 
